@@ -427,6 +427,11 @@ func (s *streamGRPC) RecvMsg(m interface{}) error {
 	}
 	b = b[:size]
 	if _, err := io.ReadFull(s.r, b); err != nil {
+		if err == io.EOF {
+			// The header announced a message: a body that ends here is
+			// truncated, not a clean end of stream.
+			err = io.ErrUnexpectedEOF
+		}
 		return err
 	}
 
